@@ -1137,7 +1137,9 @@ class FuncEval:
         stop_s, avoid_s = set(stop), set(avoid)
         seen: set[int] = set()
         self.edges: set[tuple[int, int]] = set()
-        stack = list(starts)
+        # a start node that is itself to be avoided is not entered either (the statement right after a binding already is
+        # the sink: that path has arrived, it does not "end the iteration without passing the sink")
+        stack = [s for s in starts if s.id not in avoid_s]
         self._frame = (list(stack), frozenset(stop_s | avoid_s))  # kept afterwards: values read next belong to these paths
         self._frame_no += 1
         while stack:
